@@ -177,5 +177,5 @@ fn gen_pred() -> impl Strategy<Value = PredCase> {
 }
 
 pub fn run_predictor(ctx: &Ctx, tier: Tier, _seed: u64) {
-    prop_search(ctx, "predictor", tier.pick(64, 600), gen_pred, test_pred);
+    prop_search(ctx, "predictor", tier.pick(64, 2000), gen_pred, test_pred);
 }
